@@ -54,7 +54,15 @@ func main() {
 			fmt.Fprintln(os.Stderr, err)
 			os.Exit(2)
 		}
-		fmt.Println("# functions and methods declared in the tree the rule instances were confirmed on (verif funcs); see checker/internal/load/normalise.go")
+		if len(os.Args) <= 3 {
+			fmt.Println("# functions and methods declared in the tree the rule instances were confirmed on (verif funcs); see checker/internal/load/normalise.go")
+		}
+		if len(os.Args) > 3 && os.Args[3] == "calls" {
+			for _, l := range load.DeclaredCalls(p.Initial) {
+				fmt.Println(l)
+			}
+			break
+		}
 		for _, l := range load.DeclaredFuncs(p.Initial) {
 			fmt.Println(l)
 		}
@@ -119,6 +127,10 @@ func check(args []string) int {
 				lerr = fmt.Errorf("reference function list: %w", rerr)
 			} else {
 				var nlog []string
+				load.RefEdges = nil
+				if edges, eerr := load.ReadReference(filepath.Join(*verif, "reference_calls.txt")); eerr == nil && len(edges) > 0 {
+					load.RefEdges = edges
+				}
 				prog, nlog, lerr = load.Normalise(*repo, cfg, ref, prog)
 				for _, l := range nlog {
 					fmt.Println("NORMALISED " + cfg.String() + ": " + l)
